@@ -115,6 +115,13 @@ func rioGen(r *rand.Rand, mode string, thorough bool) rioCase {
 	if mode == "damage" {
 		n = 1 + r.Intn(6)
 	}
+	bigAt := -1
+	if mode == "damage" && r.Intn(12) == 0 {
+		bigAt = r.Intn(n)
+		if c.ReadChunk > 0 && c.ReadChunk < 1000 {
+			c.ReadChunk = 4096
+		}
+	}
 	if r.Intn(12) == 0 {
 		n = 0
 	}
@@ -124,13 +131,24 @@ func rioGen(r *rand.Rand, mode string, thorough bool) rioCase {
 		if mode == "control" && r.Intn(6) == 0 {
 			rec.Size = pick(r, 4090, 4096, 4100, 5000, 8191, 8192, 8193, 70000) // around the 4 KiB scan window and buffers
 		}
+		if mode == "control" && r.Intn(25) == 0 {
+			rec.Size = pick(r, 1<<19-1, 1<<19, 1<<19+1, 600000, 1<<20+3) // around the largest pooled buffer size
+			if c.ReadChunk > 0 && c.ReadChunk < 1000 {
+				c.ReadChunk = 4096 // byte-sized chunks over a megabyte would only burn time
+			}
+			rec.Pattern = pick(r, 0, 4, 5) // a megabyte of marker bytes makes every SeekNext do 350k trial reads
+		}
 		if mode == "control" && r.Intn(8) == 0 {
 			rec.Size = c.WriteBuf%100000 + r.Intn(3) - 1
 			if rec.Size < 0 {
 				rec.Size = 0
 			}
 		}
-		if r.Intn(7) == 0 {
+		if i == bigAt {
+			rec.Size = pick(r, 1<<19+1, 600000)
+			rec.Pattern = pick(r, 0, 4, 5)
+		}
+		if r.Intn(7) == 0 && i != bigAt {
 			rec.Nil = true
 		}
 		rec.Sync = !c.DirectIO && r.Intn(4) == 0
@@ -329,6 +347,11 @@ func rioControl(c *Ctx, rc rioCase, tape *simrt.Tape, count bool) (vs []rioV, ev
 	step := uint64(1)
 	if !c.Thorough() && fileSize > 3000 {
 		step = fileSize / 1500
+	} else if fileSize > 40000 {
+		step = fileSize / 20000
+	}
+	if fileSize > 200000 {
+		step = fileSize / 200
 	}
 	next := 0
 	for off := uint64(0); off <= fileSize; off++ {
@@ -450,8 +473,31 @@ func rioDamage(c *Ctx, rc rioCase, tape *simrt.Tape, count bool) (vs []rioV, eva
 	defer simrt.Deactivate()
 	defer w.ReleaseAll()
 
-	// --- truncation at every length ---
+	// --- truncation at every length (large files: every header byte, the bytes around every record boundary and
+	// 300 further lengths) ---
+	wantL := map[int]bool{}
+	if len(orig) > 6000 {
+		for i, h := range hdrs {
+			for L := h.start - 2; L <= h.start+h.length+2; L++ {
+				wantL[L] = true
+			}
+			_ = i
+		}
+		for L := len(orig) - 3; L <= len(orig); L++ {
+			wantL[L] = true
+		}
+		rs := rand.New(rand.NewSource(int64(len(orig))))
+		for k := 0; k < 300; k++ {
+			wantL[rs.Intn(len(orig)+1)] = true
+		}
+		for L := 0; L < 12; L++ {
+			wantL[L] = true
+		}
+	}
 	for L := 0; L <= len(orig); L++ {
+		if len(wantL) > 0 && !wantL[L] {
+			continue
+		}
 		if err := os.WriteFile(dmg, orig[:L], 0600); err != nil {
 			panic(err)
 		}
@@ -534,7 +580,7 @@ func rioDamage(c *Ctx, rc rioCase, tape *simrt.Tape, count bool) (vs []rioV, eva
 	// --- record header bytes ---
 	repl := func(old byte) []byte {
 		var out []byte
-		if c.Thorough() || len(orig) <= 600 {
+		if (c.Thorough() && len(orig) <= 6000) || len(orig) <= 600 {
 			for v := 0; v < 256; v++ {
 				if byte(v) != old {
 					out = append(out, byte(v))
